@@ -66,12 +66,17 @@ var macrosMapPool = sync.Pool{
 // renderContextPool is a sync.Pool for RenderContext objects
 var renderContextPool = sync.Pool{
 	New: func() interface{} {
-		return &RenderContext{
+		ctx := &RenderContext{
 			context:      contextMapPool.Get().(map[string]interface{}),
 			blocks:       blocksMapPool.Get().(map[string][]Node),
 			parentBlocks: blocksMapPool.Get().(map[string][]Node),
 			macros:       macrosMapPool.Get().(map[string]Node),
 		}
+		vpool("get", "ctxmap", ctx.context, len(ctx.context))
+		vpool("get", "blockmap", ctx.blocks, len(ctx.blocks))
+		vpool("get", "blockmap", ctx.parentBlocks, len(ctx.parentBlocks))
+		vpool("get", "macromap", ctx.macros, len(ctx.macros))
+		return ctx
 	},
 }
 
